@@ -84,8 +84,13 @@ class QuantProxy(object):
       def mk(idx):
         n = tag + "_" + "_".join(map(str, idx))
         c = z3.Int("code_" + n)
-        pysym.fact(z3.And(c >= -kn * 2 ** ub, c <= 2 ** ub - 1))
-        return SymReal(scales[idx[-1]] * z3.ToReal(c) * z3.RealVal(2) ** (integer - ub))
+        # the auto branch of quantized_bits is symmetric: |code| <= 2^(bits-1) - 1 whatever keep_negative says (C05); for an unsigned
+        # quantizer only non-negative weights are considered here (negative ones would leave the declared range in the quantizer itself)
+        top = 2 ** (bits - 1) - 1
+        pysym.fact(z3.And(c >= (-top if kn else 0), c <= top))
+        from fractions import Fraction
+        step = Fraction(2) ** (integer - ub)
+        return SymReal(scales[idx[-1]] * z3.ToReal(c) * z3.Q(step.numerator, step.denominator))
       out = sym_arr(shape, mk)
       sc = np.empty((1,) * (len(shape) - 1) + (shape[-1],), dtype=object)
       for c in range(shape[-1]):
@@ -121,6 +126,7 @@ CASES = [
     ("po2_kernel", [("QDense", "d1", ["quantized_po2(4)", "quantized_bits(4,0,1)"], [(2, 1), (1,)])]),
     ("auto_po2_kernel", [("QDense", "d1", ["quantized_bits(4,0,1,alpha='auto_po2')", "quantized_relu_po2(4)"], [(2, 2), (2,)])]),
     ("binary_kernel_plain_bias", [("QConv2D", "c1", ["binary(alpha=1)", None], [(1, 1, 1, 2), (2,)])]),
+    ("auto_po2_unsigned_kernel", [("QDense", "d1", ["quantized_bits(4,1,0,keep_negative=False,alpha='auto_po2')", None], [(2, 1), (1,)])]),
     ("po2_kernel_relu_po2_bias", [("QDense", "d1", ["quantized_po2(4)", "quantized_relu_po2(4)"], [(1, 1), (1,)])]),
     ("two_layers", [("QDense", "d1", ["quantized_bits(4,0,1,alpha=1)", "quantized_po2(4)"], [(1, 1), (1,)]), ("Dense", "plain", None, [(1, 1), (1,)]),
                     ("QDense", "d2", ["ternary(alpha=1)", None], [(1, 2), (2,)])]),
@@ -275,10 +281,18 @@ def one_case(run, cname, case_layers):
             bad_eq.append(as_real(s_) * as_real(h_) != as_real(w_))
             hr = as_real(h_)
             bad_rng.append(z3.Or(z3.ToReal(z3.ToInt(hr)) != hr, hr < -desc["keep_negative"] * 2 ** ub, hr > 2 ** ub - 1))
-          v, mdl = harness.z3_query(run, "%s_%s_slot%d_scale_times_int_p%d" % (cname, L.name, i, pi), list(pc), [z3.Or(*bad_eq)], dict(meta, clause="auto_po2_rebuild", slot=i))
-          report(run, mdl, "auto_po2_rebuild", cname, case_layers, L.name, i)
-          v, mdl = harness.z3_query(run, "%s_%s_slot%d_int_range_p%d" % (cname, L.name, i, pi), list(pc), [z3.Or(*bad_rng)], dict(meta, clause="auto_po2_integer_range", slot=i))
-          report(run, mdl, "auto_po2_integer_range", cname, case_layers, L.name, i)
+          # two regions per clause: all channel scales equal to 1, and some scale different from 1.  On the unchanged tree the export
+          # is right for unit scales and wrong otherwise (recorded finding): keeping the regions apart means that the finding does not
+          # hide a change that breaks the unit-scale case as well
+          ks = [z3.Int("k_%s_%d_%d" % (L.name, i, c_)) for c_ in range(np.shape(stored)[-1])]
+          regions = (("unit_scale", z3.And(*[k == 0 for k in ks])), ("non_unit_scale", z3.Or(*[k != 0 for k in ks])))
+          for rname, rcond in regions:
+            v, mdl = harness.z3_query(run, "%s_%s_slot%d_scale_times_int_%s_p%d" % (cname, L.name, i, rname, pi), list(pc) + [rcond], [z3.Or(*bad_eq)],
+                                      dict(meta, clause="auto_po2_rebuild", slot=i, region=rname))
+            report(run, mdl, "auto_po2_rebuild", cname, case_layers, L.name, i, region=rname)
+            v, mdl = harness.z3_query(run, "%s_%s_slot%d_int_range_%s_p%d" % (cname, L.name, i, rname, pi), list(pc) + [rcond], [z3.Or(*bad_rng)],
+                                      dict(meta, clause="auto_po2_integer_range", slot=i, region=rname))
+            report(run, mdl, "auto_po2_integer_range", cname, case_layers, L.name, i, region=rname)
         else:
           # ordinary quantizer or no quantizer: the dictionary carries the stored weight itself
           run.concrete_checks += 1
@@ -289,13 +303,16 @@ def one_case(run, cname, case_layers):
   run.configs.append("%s (%d paths)" % (cname, len(paths)))
 
 
-def report(run, mdl, clause, cname, case_layers, lname, slot):
+def report(run, mdl, clause, cname, case_layers, lname, slot, region=None):
   if mdl is None:
     return
   rep = dict(clause=clause, case=cname, layer=lname, slot=slot, model=mdl)
   ok, detail = replay_concrete(rep)
   if ok:
-    run.violation(dict(clause=clause, quantizer=detail.get("quantizer")), detail, rep)
+    sig = dict(clause=clause, quantizer=detail.get("quantizer"))
+    if region:
+      sig["region"] = region
+    run.violation(sig, detail, rep)
   else:
     run.inconclusive_("%s/%s slot %d: counterexample of %s does not reproduce on the real export: %s" % (cname, lname, slot, clause, str(detail)[:300]))
 
@@ -417,7 +434,7 @@ def replay(body):
 
 def run(tier, seed):
   r = harness.Run(PROP, "model_checking", tier, seed)
-  cases = CASES if tier == "thorough" else CASES[:4]
+  cases = CASES if tier == "thorough" else CASES[:5]
   for cname, case_layers in cases:
     try:
       one_case(r, cname, case_layers)
